@@ -464,10 +464,25 @@ def count_bounds(ctx):
     return st
 
 
+# ------------------------------------------------------------------------------------------------ DER, structure-aware
+def der_structure(ctx):
+    """The DER signature parser over the structure-aware family of C02 (every padding and length form of each integer, every
+    outer length, single and double substitutions), judged by BIP66's IsValidSignatureEncoding and by 'one signature, one
+    encoding': the same exploration, reported under this property because canonicity of a wire format is C05's clause."""
+    from checks import c02
+
+    src = c02.der(ctx)
+    st = Stats()
+    st.merge(src)
+    st.viol = {k.replace("C02/der/", "C05/der/"): v for k, v in src.viol.items()}
+    return st
+
+
 SUBS = [
     ("neighbourhoods", neighbourhoods),
     ("objects", objects),
     ("count_bounds", count_bounds),
+    ("der_structure", der_structure),
     ("compact_size", compact_size),
     ("psbt_maps", psbt_maps),
     ("streams", streams),
